@@ -225,7 +225,11 @@ where
                     let _verif_guard = poulpy_hal::verif::thread_begin(verif_tok);
                     for (idx, out_i) in out_chunk.iter_mut().enumerate() {
                         #[cfg(feature = "verif")]
-                        poulpy_hal::verif::yield_point(poulpy_hal::verif::SITE_BDD_ITEM, thread_idx * chunk_size + idx, thread_idx);
+                        poulpy_hal::verif::yield_point(
+                            poulpy_hal::verif::SITE_BDD_ITEM,
+                            thread_idx * chunk_size + idx,
+                            thread_idx,
+                        );
                         let (nodes, state_size) = circuit.get_circuit(thread_idx * chunk_size + idx);
 
                         if state_size == 0 {
